@@ -196,7 +196,9 @@ class NodeSliver(BaseSliver):
 
                 # compare child interfaces
                 # (components with dedicated ports, which can carry sub-interfaces)
-                if cA.get_type() in (ComponentType.SmartNIC, ComponentType.FPGA):
+                if cA.get_type() in (ComponentType.SmartNIC, ComponentType.FPGA) and \
+                        cA.network_service_info and cA.network_service_info.network_services and \
+                        cB.network_service_info and cB.network_service_info.network_services:
                     cAns = list(cA.network_service_info.network_services.values())[0]
                     cBns = list(cB.network_service_info.network_services.values())[0]
                     ns_diff = cAns.diff(cBns)
